@@ -10,6 +10,16 @@ CHECKS = {
    text="Generated-input search: every tree of <=3 combinator nodes over 5 primitives x all strings over {a,b,c} up to length 4 (quick) / 6 (thorough), plus 40k (quick) / 800k (thorough) random (grammar, input) pairs of the C01 class, each run through parse and check with Rich and EmptyErr, a plain and a span-observed build and g.then(rest), compared with an independently written PEG reference (acceptance, output value, consumed extent of every sub-parser). Exploration, not proof: absence of a counterexample within these bounds.",
    note="Trusted: the reference evaluator harness/src/reference.rs (written from the PEG definitions), proptest's RNG, the boxed dynamic builder (children are reached through dyn Parser; static monomorphisations only via the catalogue).",
    design="DESIGN.md section 4, C01"),
+ "C02": dict(
+   technique="property-based differential testing against a reference repetition semantics: complete enumeration of the bounds/flags/consumer configuration grid x all short strings, plus proptest-driven random item/separator grammars, structural shrinking",
+   text="Generated-input search: the complete grid at_least 0..4 x at_most {none,0..4} x allow_leading x allow_trailing x 9 consumers (+collect_exactly, +configure()) for 6 fixed item/separator pairs on every string over {a , b} up to length 5 (quick) / 7 (thorough), the empty-interval sub-domain separately, and 60k / 800k random repetitions with generated item and separator grammars; compared with the reference on acceptance, collected value (order via non-commutative folds and enumerate) and unconsumed remainder. Exploration within these bounds.",
+   note="Trusted: the reference repetition loop (harness/src/reference.rs), the admissible variants V-lead / V-trail-cap (DESIGN.md 3.1), proptest RNG. Known finding KF-b (at_least > at_most) is listed in known_findings.json and confined to its own sub-domain.",
+   design="DESIGN.md section 4, C02"),
+ "C03": dict(
+   technique="property-based testing of the ParseResult contract over generated grammars and inputs, with a reference PEG evaluator deciding 'matches the entire input', one-token extensions of every accepted input (metamorphic), and lazy() vs prefix match",
+   text="Generated-input search: ~9.5k small grammars x all strings over {a,b,c} up to length 4 (quick) / 5 (thorough) plus 60k / 800k random (grammar, input) pairs of the C01/C02 classes with validate, recover_with, memoized and labelled nodes; on every case the raw ParseResult of parse() and check(), with Rich and with EmptyErr, is tested for the four implications of the statement, error-free output <=> reference matches the entire input, every one-token extension of an accepted input is rejected unless the reference matches it, and g.lazy() accepts iff the reference matches a prefix. Exploration within these bounds.",
+   note="Trusted: the reference PEG evaluator for 'entire input matched'; panics inside recovery strategies are left to C20 (counted).",
+   design="DESIGN.md section 4, C03"),
 }
 
 NOT_YET = {}
